@@ -227,6 +227,12 @@ func checkC16(rc *RunCtx) *Report {
 	st := &c16Stats{nontrivial: map[string]bool{}, seen: map[string]string{}}
 	if rc.Replay != "" {
 		var elems []c16Elem
+		var journey string
+		if err := loadReplay(rc.Replay, "journey", &journey); err == nil && journey != "" {
+			c16Journeys(rc, rep)
+			rep.Coverage["evaluations"] = 1
+			return rep
+		}
 		if err := loadReplay(rc.Replay, "elems", &elems); err != nil {
 			rep.HarnessErr = err.Error()
 			return rep
@@ -297,7 +303,8 @@ func checkC16(rc *RunCtx) *Report {
 	rep.Coverage["rule"] = fmt.Sprintf("all paths of 1 element over %d rich elements (names a,ab,m:a; 0..%d keys k,k2,k3; key values of length 1..%d over %q, 1..2 for two-key elements), all 2-element paths rich x poor and poor x rich (%d poor elements), all 3-element paths poor x medium x poor (%d medium elements); non-trivial = distinct textual forms containing at least one key; oracles: roundtrip, injective, split, parent",
 		len(rich), maxKeys, len1, strings.Join(c16KeyChars, ""), len(poor), len(medium))
 	rep.Assumptions = append(rep.Assumptions, "element and key names are YANG identifiers; key values range over the listed alphabet only")
+	c16Journeys(rc, rep)
 	return rep
 }
 
-func init() { register("C16", checkC16) }
+func init() { registerBubble("C16", checkC16) }
